@@ -204,6 +204,28 @@ def run(ck: Check):
                                 dict(case, maxdiff=float(np.max(np.abs(ref - y[b])))), signature={"layer": "conv2d", "param": "walsh", "what": "formula"})
                     break
         ck.count("conv_outputs_compared", int(np.prod(y.shape)))
+    # ---------------- upper tree levels wired otherwise than the constructor does (the wiring of every level is a public, persisted
+    # attribute: a checkpoint may hold any pairing): each node must read ITS two wired inputs, here (0,2),(1,3) instead of (0,1),(2,3)
+    from torchlogix.layers import LogicConv2d as _LC2
+    for mode_u in ("soft", "eval"):
+        torch.manual_seed(ck.seed * 17 + 3)
+        lu = _LC2(in_dim=(3, 4), device="cpu", channels=2, num_kernels=2, tree_depth=2, receptive_field_size=2, parametrization="raw",
+                  weight_init="random", forward_sampling="soft", temperature=1.0, padding=1)
+        geo_u = {"dims": 2, "in_dim": [3, 4], "padding": 1, "rf": 2, "rfs": [2, 2], "stride": 1, "channels": 2, "kernels": 2, "depth": 2}
+        lu.indices[1] = (torch.tensor([0, 1]), torch.tensor([2, 3]))
+        up_w = [([0, 1], [2, 3]), ([0], [1])]
+        lu = lu.double()
+        xu = torch.rand(1, 2, 3, 4, dtype=torch.float64) if mode_u == "soft" else (torch.rand(1, 2, 3, 4) > 0.5).double()
+        lu.train(mode_u == "soft")
+        with torch.no_grad():
+            yu = lu(xu)[0].numpy()
+        wu = [[[w.detach().numpy()[k] for k in range(2)] for w in lv] for lv in lu.tree_weights]
+        ref_u = per_window(lu, geo_u, xu[0].numpy(), "train" if mode_u == "soft" else "eval", wu, upper=up_w)
+        case_u = {"layer": "conv2d", "param": "raw", "mode": mode_u, "upper_level_wiring": "(0,2),(1,3)"}
+        ck.case(case_u, nontrivial=True, kind="conv-upper-wiring")
+        if np.max(np.abs(ref_u - yu)) > 1e-9:
+            ck.disagree("a node of an upper tree level does not read its two wired inputs (layer.indices[level] is ignored)",
+                        dict(case_u, maxdiff=float(np.max(np.abs(ref_u - yu)))), signature={"layer": "conv2d", "what": "upper-wiring", "mode": mode_u})
     # ---------------- a large batch (processing in pieces must not lose or corrupt rows)
     protocols.large_batch_rows(ck, train=True)
     protocols.dtype_variants(ck, train=True)
